@@ -502,7 +502,7 @@ def judgeParse (cfg : ParseCfg) (cid : String) (o : Op) (hs : HState) (out : Out
       out := out.v cid o.n "C07" "D" (ses == exp) s!"callbacks={ses} model={exp}"
   -- trees ---------------------------------------------------------------------------------
   let recovered := !sentence && !recOff && recModelOk
-  if (sentence || recovered) && rootS == "tree" then
+  if (sentence || recovered) && rootS == "tree" && (o.first "notree").isNone then
     let some (rootIdS :: _) := o.first "root" | return (hs', out.v cid o.n "C02" "K" false "no root line")
     let rootId := toNat rootIdS
     let wf := tableWF tab && !hasBad tab && crashy == 0
